@@ -182,8 +182,7 @@ def main():
                     bad("WritesOnlyOwnFamily:dispatch:%s=%s" % (f, v), dict(case=case, scale=scale, extra=sorted(extra)[:8]))
 
     # ---- 3. numeric overrides
-    with contextlib.redirect_stdout(io.StringIO()):
-        c_base, _, _ = sr.set_depending_on_option(copy.deepcopy(BASE_COUNTRY), country_data=rows["ARG"])
+    from harness_presets_snapshot import BASE_COUNTRY2
     stock_csv = pd.read_csv("data/no_food_trade/animal_feed_data/FAOSTAT_head_and_slaughter.csv", index_col="iso3")
     seen = {}
     o_create = ap.AnimalModelBuilder.create_animal_objects
@@ -192,11 +191,13 @@ def main():
         seen["row"] = df_row.copy()
         return o_create(df_row, df_attr)
 
-    for key, target in tables["overrides"].items():
+    for key, target, BASE in [(k, t, b) for b in (BASE_COUNTRY, BASE_COUNTRY2) for k, t in tables["overrides"].items()]:
+        with contextlib.redirect_stdout(io.StringIO()):
+            c_base, _, _ = sr.set_depending_on_option(copy.deepcopy(BASE), country_data=rows["ARG"])
         rep["override_cases"] += 1
         val = {"kg_meat_per_large_animal": 300.5, "MINIMUM_PERCENT_FED_BEFORE_NONHUMAN_CONSUMPTION_ALLOWED": 37, "RATIO_STOCKS_UNTOUCHED": 0.25,
                "CROP_PRODUCTION_MULTIPLIER": 0.5, "GRASSES_PRODUCTION_MULTIPLIER": 2}.get(key, 123457)
-        opts = copy.deepcopy(BASE_COUNTRY)
+        opts = copy.deepcopy(BASE)
         opts[key] = val
         snapshot = copy.deepcopy(opts)
         try:
@@ -213,7 +214,7 @@ def main():
             tgt = {k for k in tgt if k in flat(c_base)}
         if ch != tgt:
             bad("OverrideIsolation:%s" % ("head" if key.endswith("_head") else key), dict(key=key, changed=sorted(ch), want=sorted(tgt)))
-        if key.endswith("_head"):
+        if key.endswith("_head") and BASE is BASE_COUNTRY:
             # the override must reach the stock table the herd model is built from: exactly the named species changes
             ap.AnimalModelBuilder.create_animal_objects = staticmethod(w_create) if False else w_create
             try:
